@@ -209,6 +209,30 @@ def rows_for(label, opts):
         g.cleanup()
 
 
+def helper_cardinalities():
+    """which Cardinality constant each call helper of ServiceStub passes to channel.request, and whether it
+    forwards **__resolve_request_kwargs(timeout, deadline, metadata) (read from grpclib_client.py with ast)"""
+    import betterproto.grpc.grpclib_client as gc
+    with open(gc.__file__) as f:
+        tree = ast.parse(f.read())
+    out = []
+    for node in tree.body:
+        if isinstance(node, ast.ClassDef) and node.name == "ServiceStub":
+            for fn in node.body:
+                if isinstance(fn, ast.AsyncFunctionDef) and fn.name in ("_unary_unary", "_unary_stream", "_stream_unary", "_stream_stream"):
+                    card, kw = "?", False
+                    for c in calls_in(fn):
+                        if dotted(c.func) == "self.channel.request" and len(c.args) >= 2:
+                            d = dotted(c.args[1])
+                            card = d[len("grpclib.const.Cardinality."):] if d.startswith("grpclib.const.Cardinality.") else "?" + d
+                            for k in c.keywords:
+                                if k.arg is None and isinstance(k.value, ast.Call) and dotted(k.value.func).endswith("__resolve_request_kwargs") \
+                                        and [dotted(a) for a in k.value.args] == ["timeout", "deadline", "metadata"]:
+                                    kw = True
+                    out.append((fn.name, card, kw))
+    return out
+
+
 def lean_str(s):
     return '"' + s.replace("\\", "\\\\").replace('"', '\\"') + '"'
 
@@ -246,6 +270,9 @@ def render(rows, problems, stamp):
     out.append("/-- (proto method name, `pythonize_method_name` of it) as computed by the working tree -/")
     out.append("def probePyNames : List (String × String) := ["
                + ", ".join("(%s, %s)" % (lean_str(m), lean_str(pythonize_method_name(m))) for m, _, _ in PROBE_METHODS) + "]")
+    out.append("/-- grpclib_client.ServiceStub: (helper, Cardinality it passes to channel.request, forwards the resolved kwargs) -/")
+    out.append("def helperCardinality : List (String × String × Bool) := ["
+               + ", ".join("(%s, %s, %s)" % (lean_str(h), lean_str(c), "true" if k else "false") for h, c, k in helper_cardinalities()) + "]")
     out.append("def stubOptionSets : List String := [" + ", ".join(lean_str(l) for l, _ in OPTION_SETS) + "]")
     out.append("")
     for p in problems:
